@@ -140,6 +140,22 @@ impl SharedHistory {
 }
 
 
+//--- Verification hooks
+
+#[cfg(routinator_verif)]
+impl SharedHistory {
+    /// Hook H9: moves the session to `serial` by pushing an empty delta.
+    pub fn verif_seed_serial(&self, serial: Serial) {
+        self.write().push_delta(PayloadDelta::empty(serial));
+    }
+
+    /// Returns the number of retained deltas.
+    pub fn verif_delta_count(&self) -> usize {
+        self.read().deltas.len()
+    }
+}
+
+
 //--- PayloadSource
 
 impl PayloadSource for SharedHistory {
